@@ -84,6 +84,18 @@ func (e Engine) Generate(cfg simkit.RunConfig) (any, bool) {
 		case "", "workload", "crashfaults", "reads", "gc", "lockretry":
 			addRareFaults(cfg.Seed, s)
 		}
+		switch strings.TrimSuffix(cfg.Mode, "-R") {
+		case "", "workload", "nofault", "reads", "ryw", "crash", "stalelock":
+			addReadKnobs(cfg.Seed, s)
+		}
+		switch strings.TrimSuffix(cfg.Mode, "-R") {
+		case "", "workload", "nofault", "faults", "crash", "crashfaults", "leftover", "stalelock", "lockretry":
+			addFallbacks(cfg.Seed, s)
+		}
+		switch strings.TrimSuffix(cfg.Mode, "-R") {
+		case "", "workload", "nofault", "leftover", "crash":
+			addOnlyIfExists(cfg.Seed, s)
+		}
 	}
 	return sc, ok
 }
@@ -312,6 +324,12 @@ func (Engine) Execute(t *testing.T, cfg simkit.RunConfig, scenario any) *simkit.
 	if w.ref != nil {
 		if w.ref.FollowerServed > 0 {
 			res.Stats["probe.replica-read.served-by-follower"] += w.ref.FollowerServed
+		}
+		if w.ref.Fallbacks > 0 {
+			res.Stats["probe.async-commit.refused-by-store"] += w.ref.Fallbacks
+		}
+		if w.ref.RespLevelLocks > 0 {
+			res.Stats["probe.batch-get.response-level-lock"] += w.ref.RespLevelLocks
 		}
 		if w.ref.NotReady > 0 {
 			res.Stats["fault.stale-read-data-not-ready"] += w.ref.NotReady
